@@ -201,6 +201,8 @@ def finish(prop, tier, reports, t0, level="model_checking", extra_cov=None, must
     inconclusive = [q["name"] for q in queries if q["verdict"] == "unknown"]
     inconclusive_core = [q["name"] for q in queries if q["verdict"] == "unknown" and not (q.get("tags") or {}).get("optional")]
     spurious_core = [c["name"] for c in spurious if c.get("must_hold", True)]
+    cex_names = {c["name"] for c in cex}
+    unexplained_sat = [q["name"] for q in queries if q["verdict"] == "sat" and q["name"] not in cex_names and not (q.get("tags") or {}).get("optional")]
     unreached = [q["name"] for q in reach if q["verdict"] != "sat"]
     truncated = [r.task for r in reports if r.truncated]
     unsupported = sorted({u for r in reports for u in r.unsupported})
@@ -234,6 +236,7 @@ def finish(prop, tier, reports, t0, level="model_checking", extra_cov=None, must
         "solver_time_s": round(sum(r.solver_time for r in reports), 2),
         "task_wall_s": {r.task: round(r.wall, 1) for r in reports},
         "inconclusive": inconclusive,
+        "sat_without_replayable_counterexample": unexplained_sat,
         "spurious_models": [c["name"] for c in spurious],
         "unsupported_paths": unsupported,
         "outside_claim": outside,
@@ -272,9 +275,10 @@ def finish(prop, tier, reports, t0, level="model_checking", extra_cov=None, must
         return 3
     if violations:
         return 1
-    if inconclusive_core or spurious_core or (must_reach and unreached) or truncated:
+    if inconclusive_core or spurious_core or (must_reach and unreached) or truncated or unexplained_sat:
         print(
-            f"INCONCLUSIVE property={prop} unknown={inconclusive_core} spurious={spurious_core} unreached={unreached} truncated={truncated}"
+            f"INCONCLUSIVE property={prop} unknown={inconclusive_core} spurious={spurious_core} unreached={unreached} "
+            f"truncated={truncated} sat_without_replay={unexplained_sat}"
         )
         return 2
     return 0
